@@ -212,6 +212,18 @@ def parts_for(mode, tier, raw_max, m_extra, hdr_extra, table_classes, table_tags
             rep={'ch': 1, 'ln': {'__bytes__': '%08x' % (3 + rl + len(REST_SUFFIX.get(tagname, [])))}, 'key': 107,
                  'rest': {'__bytes__': '00' * rl}}))
 
+    for tagch, tagname in table_tags:
+        # the payload ends right after the type tag while the table length announces more
+        body = ('def body(ch, ln, key):\n'
+                '    tbl = hx.blist(ln, 4) + [1, key, %d]\n'
+                '    d = envelope(2, ch, [0, 60, 0, 0] + [0] * 8 + [0x20, 0x00] + tbl)\n'
+                '    return judge(frame.unmarshal, d)\n' % ord(tagch))
+        parts.append(Part(
+            name='hdrt0_%s' % tagname, params=[('ch', 'int'), ('ln', 'bytes'), ('key', 'int')],
+            pre=['0 <= ch <= 65535', 'len(ln) == 4', '0 <= key <= 255'],
+            body=body, prelude=prelude, timeout=timeout, family='header_table_envelope',
+            bound='content header whose headers table ends right after tag %r (arbitrary declared length)' % tagch,
+            rep={'ch': 1, 'ln': {'__bytes__': '00000009'}, 'key': 107}))
     parts.append(Part(
         name='hdr_ts', params=[('ch', 'int'), ('ts', 'bytes')],
         pre=['0 <= ch <= 65535', 'len(ts) == 8'],
